@@ -254,7 +254,7 @@ pub fn recipes(subs: &[Subject], rng: &mut Rng, numbers_everywhere: bool) -> Vec
         let hexv = |f: Felt| -> Value { json!(format!("{:#x}", f)) };
         let n_inner = get(&s.proof, &cfg(&["fri", "inner_layers"])).as_array().unwrap().len();
         let nseg_early = s.proof["public_input"]["segments"].as_array().map(|a| a.len()).unwrap_or(0);
-        for d in [1u64, 2, 40, 1 << 20] {
+        for d in [1u64, 2, 8, 12, 40, 1 << 20] {
             // blow-up exponent +d with every height re-declared
             let df = Felt::from(d);
             let mut e = vec![(cfg(&["log_n_cosets"]), Edit::Set(hexv(felt_at(&cfg(&["log_n_cosets"])) + df)))];
